@@ -10,8 +10,9 @@
      jlsn_*                   = jpegls/nearlossless/decoder.go  the same for the near-lossless decoder
                                 (parameters are derived in parseSOS by applyCodingParameters)
    Result Ok (w,h,c,bits,near): the decoder has reached the entropy decoder with this header.
-   g = false: code as it stands.  g = true: with the proposed check in parseSOF55
-   (`if bitDepth >= 64 -> error`; any stricter bound such as 2..16 works as well). *)
+   History: before fix 3cb0e9d (finding F36) parseSOF55 did not validate the precision byte
+   (precision >= 64 -> maxVal = -1 -> 256/(maxVal+1) panicked); before 16f659a a second SOF55
+   replaced the first. The model is the fixed code. *)
 From V Require Import Common.Base Parsers.PrsOutcome.
 
 Fixpoint jls_bits_loop (fuel : nat) (n len : Z) : Z :=
@@ -78,17 +79,18 @@ Definition jlsl_init (st : jls_st) (t1 t2 t3 : Z) : M jls_st :=
   let '(a, b, c) := if (t1 =? 0) || (t2 =? 0) || (t3 =? 0) then (jp_t1 p, jp_t2 p, jp_t3 p) else (t1, t2, t3) in
   ret (mkJS (js_w st) (js_h st) (js_c st) (js_bits st) (js_maxval st) (jp_reset p2) a b c 0 (js_ilv st)).
 
-Definition jlsl_parse_sof55 (g : bool) (st : jls_st) (bs : list Z) : M (jls_st * list Z) :=
+Definition jlsl_parse_sof55 (st : jls_st) (bs : list Z) : M (jls_st * list Z) :=
   sr <- read_segment bs ;;
   let '(data, rest) := sr in
   if zlen data <? 6 then err else
+  if negb (js_w st =? 0) || negb (js_h st =? 0) then err else   (* second frame header *)
   let bits := znth data 0 0 in
   let h := be16 data 1 in
   let w := be16 data 3 in
   let c := znth data 5 0 in
   if (w <=? 0) || (h <=? 0) then err else
   if negb ((c =? 1) || (c =? 3)) then err else
-  if g && (64 <=? bits) then err else   (* proposed check *)
+  if (bits <? 2) || (16 <? bits) then err else
   let maxVal := i64 (shl1 bits - 1) in
   (* dec.traits = NewTraits(dec.maxVal, 0, 64) *)
   p <- lift (jls_coding_params maxVal 0 64) ;;
@@ -133,44 +135,45 @@ Definition jls_scan_allocs (st : jls_st) (rest : list Z) : M unit :=
 
 Definition jls_hdr : Type := (Z * Z * Z * Z * Z)%type. (* w, h, c, bits, near *)
 
-Fixpoint jlsl_loop (g : bool) (fuel : nat) (st : jls_st) (bs : list Z) : M jls_hdr :=
+Fixpoint jlsl_loop (fuel : nat) (st : jls_st) (bs : list Z) : M jls_hdr :=
   match fuel with
   | O => oof
   | S k =>
     match read_marker bs with
     | Ok (m, r) =>
-      if m =? 247 then x <- jlsl_parse_sof55 g st r ;; jlsl_loop g k (fst x) (snd x)
-      else if m =? 248 then x <- jlsl_parse_lse st r ;; jlsl_loop g k (fst x) (snd x)
+      if m =? 247 then x <- jlsl_parse_sof55 st r ;; jlsl_loop k (fst x) (snd x)
+      else if m =? 248 then x <- jlsl_parse_lse st r ;; jlsl_loop k (fst x) (snd x)
       else if m =? 218 then
         x <- jlsl_parse_sos st r ;;
         _ <- jls_scan_allocs (fst x) (snd x) ;;
         ret (js_w (fst x), js_h (fst x), js_c (fst x), js_bits (fst x), 0)
       else if m =? 217 then err
-      else if has_length m then x <- read_segment r ;; jlsl_loop g k st (snd x)
-      else jlsl_loop g k st r
+      else if has_length m then x <- read_segment r ;; jlsl_loop k st (snd x)
+      else jlsl_loop k st r
     | _ => err (* read error (EOF: "incomplete JPEG-LS data") *)
     end
   end.
 
-Definition jlsl_decode (g : bool) (fuel : nat) (bs : list Z) : M jls_hdr :=
+Definition jlsl_decode (fuel : nat) (bs : list Z) : M jls_hdr :=
   match read_marker bs with
-  | Ok (m, r) => if m =? 216 then jlsl_loop g fuel jls_st0 r else err
+  | Ok (m, r) => if m =? 216 then jlsl_loop fuel jls_st0 r else err
   | _ => err
   end.
 
 (* ---------- near-lossless decoder ---------- *)
 
-Definition jlsn_parse_sof55 (g : bool) (st : jls_st) (bs : list Z) : M (jls_st * list Z) :=
+Definition jlsn_parse_sof55 (st : jls_st) (bs : list Z) : M (jls_st * list Z) :=
   sr <- read_segment bs ;;
   let '(data, rest) := sr in
   if zlen data <? 6 then err else
+  if negb (js_w st =? 0) || negb (js_h st =? 0) then err else   (* second frame header *)
   let bits := znth data 0 0 in
   let h := be16 data 1 in
   let w := be16 data 3 in
   let c := znth data 5 0 in
   if (w <=? 0) || (h <=? 0) then err else
   if negb ((c =? 1) || (c =? 3)) then err else
-  if g && (64 <=? bits) then err else   (* proposed check *)
+  if (bits <? 2) || (16 <? bits) then err else
   ret (mkJS w h c bits (i64 (shl1 bits - 1)) 64 (js_t1 st) (js_t2 st) (js_t3 st) (js_near st) (js_ilv st), rest).
 
 Definition jlsn_parse_lse (st : jls_st) (bs : list Z) : M (jls_st * list Z) :=
@@ -206,27 +209,27 @@ Definition jlsn_parse_sos (st : jls_st) (bs : list Z) : M (jls_st * list Z) :=
   st2 <- jlsn_apply (mkJS (js_w st) (js_h st) (js_c st) (js_bits st) (js_maxval st) (js_reset st) (js_t1 st) (js_t2 st) (js_t3 st) near ilv) ;;
   ret (st2, rest).
 
-Fixpoint jlsn_loop (g : bool) (fuel : nat) (st : jls_st) (bs : list Z) : M jls_hdr :=
+Fixpoint jlsn_loop (fuel : nat) (st : jls_st) (bs : list Z) : M jls_hdr :=
   match fuel with
   | O => oof
   | S k =>
     match read_marker bs with
     | Ok (m, r) =>
-      if m =? 247 then x <- jlsn_parse_sof55 g st r ;; jlsn_loop g k (fst x) (snd x)
-      else if m =? 248 then x <- jlsn_parse_lse st r ;; jlsn_loop g k (fst x) (snd x)
+      if m =? 247 then x <- jlsn_parse_sof55 st r ;; jlsn_loop k (fst x) (snd x)
+      else if m =? 248 then x <- jlsn_parse_lse st r ;; jlsn_loop k (fst x) (snd x)
       else if m =? 218 then
         x <- jlsn_parse_sos st r ;;
         _ <- jls_scan_allocs (fst x) (snd x) ;;
         ret (js_w (fst x), js_h (fst x), js_c (fst x), js_bits (fst x), js_near (fst x))
       else if m =? 217 then err
-      else if has_length m then x <- read_segment r ;; jlsn_loop g k st (snd x)
-      else jlsn_loop g k st r
+      else if has_length m then x <- read_segment r ;; jlsn_loop k st (snd x)
+      else jlsn_loop k st r
     | _ => err
     end
   end.
 
-Definition jlsn_decode (g : bool) (fuel : nat) (bs : list Z) : M jls_hdr :=
+Definition jlsn_decode (fuel : nat) (bs : list Z) : M jls_hdr :=
   match read_marker bs with
-  | Ok (m, r) => if m =? 216 then jlsn_loop g fuel jls_st0 r else err
+  | Ok (m, r) => if m =? 216 then jlsn_loop fuel jls_st0 r else err
   | _ => err
   end.
